@@ -645,51 +645,54 @@ Section Decoder.
     do _ <- rbytes skip;
     ret skip.
 
+  (* 9.2: the fields in front of every meta-block *)
+  Inductive mb_kind :=
+  | MbEmptyLast                       (* ISLAST = 1, ISLASTEMPTY = 1 *)
+  | MbMetadata                        (* MNIBBLES = 0 *)
+  | MbData (mlen : N) (uncompressed : bool).
+  Definition read_mb_header : R (bool * mb_kind) :=     (* (ISLAST, kind) *)
+    do islast <- rbits 1;
+    do empty <- (if islast =? 0 then ret 0 else rbits 1);
+    if empty =? 1 then ret (true, MbEmptyLast) else
+    do ml <- read_mlen;
+    match ml with
+    | None => ret (negb (islast =? 0), MbMetadata)
+    | Some mlen =>
+      do unc <- (if islast =? 0 then rbits 1 else ret 0);
+      ret (negb (islast =? 0), MbData mlen (unc =? 1))
+    end.
+
   Inductive mb_end := StreamDone (s : dstate) | MbErr (e : N).
 
   Definition meta_block (large : bool) (window budget : N) (s : dstate) : step_res dstate mb_end :=
-    let next (last : N) (s' : dstate) : step_res dstate mb_end :=
-      if last =? 0 then Continue s' else Stop (StreamDone s') in
-    match rbits 1 (d_bits s) with
+    let next (last : bool) (s' : dstate) : step_res dstate mb_end :=
+      if last then Stop (StreamDone s') else Continue s' in
+    match read_mb_header (d_bits s) with
     | Err e => Stop (MbErr e)
-    | Ok (islast, r0) =>
-    match (if islast =? 0 then Ok (0, r0) else rbits 1 r0) with
-    | Err e => Stop (MbErr e)
-    | Ok (empty, r1) =>
-      if empty =? 1 then
-        Stop (StreamDone {| d_out := d_out s; d_ring := d_ring s; d_info := bump (d_info s) K_empty_last; d_bits := r1 |})
-      else
-        match read_mlen r1 with
-        | Err e => Stop (MbErr e)
-        | Ok (None, r2) =>
-          match read_metadata_body r2 with
-          | Err e => Stop (MbErr e)
-          | Ok (_, r3) =>
-            let i1 := bump (d_info s) K_metadata in
-            let i2 := if islast =? 0 then i1 else bump i1 K_last_metadata in
-            next islast {| d_out := d_out s; d_ring := d_ring s; d_info := i2; d_bits := r3 |}
-          end
-        | Ok (Some mlen, r2) =>
-          match (if islast =? 0 then rbits 1 r2 else Ok (0, r2)) with
-          | Err e => Stop (MbErr e)
-          | Ok (unc, r3) =>
-            if unc =? 1 then
-              match (do _ <- align; rbytes mlen) r3 with
-              | Err e => Stop (MbErr e)
-              | Ok (data, r4) =>
-                Continue {| d_out := emit_list (d_out s) data; d_ring := d_ring s;
-                            d_info := bump (d_info s) K_uncompressed; d_bits := r4 |}
-              end
-            else
-              match read_compressed large window budget mlen (d_out s) (d_ring s) (bump (d_info s) K_compressed) r3 with
-              | Err e => Stop (MbErr e)
-              | Ok ((o, rg, i), r4) =>
-                next islast {| d_out := o; d_ring := rg;
-                               d_info := (if islast =? 0 then i else bump i K_last_nonempty); d_bits := r4 |}
-              end
-          end
-        end
-    end
+    | Ok ((islast, MbEmptyLast), r1) =>
+      Stop (StreamDone {| d_out := d_out s; d_ring := d_ring s; d_info := bump (d_info s) K_empty_last; d_bits := r1 |})
+    | Ok ((islast, MbMetadata), r2) =>
+      match read_metadata_body r2 with
+      | Err e => Stop (MbErr e)
+      | Ok (_, r3) =>
+        let i1 := bump (d_info s) K_metadata in
+        let i2 := if islast then bump i1 K_last_metadata else i1 in
+        next islast {| d_out := d_out s; d_ring := d_ring s; d_info := i2; d_bits := r3 |}
+      end
+    | Ok ((islast, MbData mlen true), r3) =>
+      match (do _ <- align; rbytes mlen) r3 with
+      | Err e => Stop (MbErr e)
+      | Ok (data, r4) =>
+        Continue {| d_out := emit_list (d_out s) data; d_ring := d_ring s;
+                    d_info := bump (d_info s) K_uncompressed; d_bits := r4 |}
+      end
+    | Ok ((islast, MbData mlen false), r3) =>
+      match read_compressed large window budget mlen (d_out s) (d_ring s) (bump (d_info s) K_compressed) r3 with
+      | Err e => Stop (MbErr e)
+      | Ok ((o, rg, i), r4) =>
+        next islast {| d_out := o; d_ring := rg;
+                       d_info := (if islast then bump i K_last_nonempty else i); d_bits := r4 |}
+      end
     end.
 
   (* the whole stream.  [allow_large]: accept the large-window form of WBITS. *)
